@@ -363,10 +363,10 @@ CHECKS["C20"] = dict(
         dict(test="TestC20Transport", quick=12, thorough=300, per_shard=3, gomaxprocs=8, max_shards=4),
         dict(test="TestC20Monitor", quick=8, thorough=200, per_shard=4, gomaxprocs=8, max_shards=2),
         dict(test="TestC20E2E", quick=8, thorough=200, per_shard=2, watchdog=200),
-        dict(test="TestC20Hazard", quick=16, thorough=128, per_shard=8),
+        dict(test="TestC20Hazard", quick=18, thorough=144, per_shard=9),
     ],
     floors=dict(any={"TestC20Manager.operations": 8000, "TestC20Manager.reentrant_calls": 300, "TestC20Transport.operations": 8000, "TestC20Monitor.events": 5000,
-                     "TestC20E2E.transfers": 30, "TestC20Hazard.hazard.hook-overlapping-ending": 2, "TestC20Hazard.hazard.pause-reached-graphsync-with-message-queued": 4, "TestC20Hazard.hazard.stop-vs-limit-reports": 100, "TestC20Hazard.hazard.stop-vs-terminal-subscriber": 2}),
+                     "TestC20E2E.transfers": 30, "TestC20Hazard.hazard.hook-overlapping-ending": 2, "TestC20Hazard.hazard.pause-reached-graphsync-with-message-queued": 4, "TestC20Hazard.hazard.stop-vs-limit-reports": 100, "TestC20Hazard.hazard.stop-vs-terminal-subscriber": 2, "TestC20Hazard.hazard.simultaneous-reports-same-channel": 2000}),
     assumptions=["Transport.ChannelsForPeer (diagnostic accessor, unsynchronised read of the current request id) is outside the surface the property lists and is not driven",
                  "a hang verdict needs a stable, fully parked goroutine picture; a busy process is inconclusive"],
 )
